@@ -218,7 +218,8 @@ def pageIndividuals (letter : UInt8) : Str :=
   else Generated.pageIndividualsPrefix ++ [letter] ++ Generated.pageIndividualsSuffix
 
 /-- `PageIndividual`: `#` for a hidden living person, else the key found for the individual
-    (pointers are unique, so the i-th individual finds the i-th key) -/
+    (the record itself is looked up, so the i-th individual finds the i-th key — also when
+    several records share a pointer; regenerated fact `pageIndividualByIdentity`) -/
 def pageIndividual (names places : List Str) (hidden : Bool) (i : Nat) : Str :=
   if hidden then [35] else
   match (individualKeys names places)[i]? with
